@@ -4,7 +4,7 @@ import json, os
 VERIF = os.path.dirname(os.path.dirname(os.path.abspath(__file__)))
 
 TB = ('Trusted: Coq 8.16.1 kernel + vm_compute; hand-written model under coq/Model tied to /repo by the correspondence run of the check '
-      '(same inputs through the real code and the model on binary64); harness/generators/emitters in /verif; Go toolchain; random '
+      '(same inputs through the real code and the model on binary64; the requests of every check also go, in sequence, through one running HTTP service whose answers must equal the library\'s on a fresh decode); harness/generators/emitters in /verif; Go toolchain; random '
       'streams and math.Exp taken from the Go binary as oracles. ')
 
 
